@@ -348,6 +348,24 @@ def extra_events(prop, seed, tier):
                         ev.append(["Validate", f"h{name}{ci}.{k}", jr, paths, jterm(inst), lib_valid(root, inst), ["hand-written", name], repr(val), [dn, ar]])
                 except Exception as e:  # noqa: BLE001
                     ev.append(["BuildFailed", f"h{name}{ci}", ["hand-written", name], [dn, ar], [type(e).__name__, str(e)[:160]]])
+    # subjects declared with string annotations / forward references (NamedTuple fields, TypeVar bounds): both properties
+    from mashumaro.codecs.basic import BasicEncoder as _BE
+    from harness.checks import schema_subjects_future as fut
+    for name, ann, values in fut.SUBJECTS:
+        for ci, (dn, ar) in enumerate(COMBOS):
+            try:
+                root, sd, defs, prefix, schema = build_root(ann, dn, ar)
+                jr = jterm(root)
+                paths, facts = facts_of(root, prefix)
+                ev.append(["Schema", f"f{name}{ci}s", jr, paths, facts, sorted(defs), lib_wellformed(root), ["hand-written", "forward-ref " + name], [dn, ar]])
+                if prop == "C06":
+                    for k, val in enumerate(values):
+                        inst = json.loads(json.dumps(_BE(ann).encode(val)))
+                        ev.append(["Validate", f"f{name}{ci}.{k}", jr, paths, jterm(inst), lib_valid(root, inst), ["hand-written", "forward-ref " + name], repr(val), [dn, ar]])
+            except RecursionError:
+                ev.append(["BuildFailed", f"f{name}{ci}", ["hand-written", "forward-ref " + name], [dn, ar], ["RecursionError", ""]])
+            except Exception as e:  # noqa: BLE001
+                ev.append(["BuildFailed", f"f{name}{ci}", ["hand-written", "forward-ref " + name], [dn, ar], [type(e).__name__, str(e)[:160]]])
     if prop == "C20":
         from harness.real import Subject
         g = gen.Gen(seed + 17, max_depth=2)
